@@ -179,4 +179,84 @@ theorem step_indep (s : Stack) (op : SOp) (m1 m2 : Mem) (hinv : s.Inv) (h : m1.s
     simp only [step, peek, p1, p2]; exact ⟨by triv, by triv, by rw [q1, q2]; exact h⟩
   | size => simp only [step]; exact ⟨by triv, by triv, h⟩
 
+theorem ext_v {s t : Stack} (h : s.v = t.v) : s = t := by cases s; cases t; simp only at h; rw [h]
+
+theorem step_inv (s : Stack) (op : SOp) (m : Mem) (hinv : s.Inv) (hlive : 0 < m.live) :
+    (s.step op m).2.1.Inv ∧ (s.step op m).2.2.live = m.live := by
+  cases op with
+  | push x =>
+    obtain ⟨sp, sl, _⟩ := Arr.add_spec s.v x m hinv hlive
+    refine ⟨?_, sl⟩
+    rcases sp with ⟨_, _, g⟩ | ⟨_, hsame⟩
+    · exact g.inv hinv
+    · simp only [step, push, Stack.Inv]; rw [hsame]; exact hinv
+  | pop =>
+    obtain ⟨_, _, _, r4, r5, r6, _⟩ := Arr.removeLast_spec s.v m hinv
+    exact ⟨r4.inv hinv r5, by simp only [step, pop, r6]⟩
+  | peek => exact ⟨hinv, by simp only [step, peek, (Arr.getLast_spec s.v m hinv).2.2.1]⟩
+  | size => exact ⟨hinv, rfl⟩
+
+theorem run_led (ops : List SOp) : ∀ (s : Stack) (m : Mem), s.Inv → 0 < m.live →
+    (s.run ops m).2.2.libc = m.libc ∧
+    (s.run ops m).2.2.nrefused = m.nrefused + ((s.run ops m).1.filter (fun o => decide (o.st = some .errAlloc))).length := by
+  induction ops with
+  | nil => intro s m _ _; exact ⟨rfl, rfl⟩
+  | cons op ops ih =>
+    intro s m hinv hlive
+    obtain ⟨l1, l2⟩ := step_led s op m hinv
+    have hinv' := step_inv s op m hinv hlive
+    obtain ⟨i1, i2⟩ := ih (s.step op m).2.1 (s.step op m).2.2 hinv'.1 (by omega)
+    simp only [Stack.run, List.filter_cons]
+    refine ⟨by rw [i1, l1], ?_⟩
+    rw [i2, l2]
+    split <;> simp <;> omega
+
+theorem run_indep (ops : List SOp) : ∀ (s : Stack) (m1 m2 : Mem), s.Inv → 0 < m1.live → 0 < m2.live →
+    m1.sched = m2.sched →
+    (s.run ops m1).1 = (s.run ops m2).1 ∧ (s.run ops m1).2.1 = (s.run ops m2).2.1 ∧
+    (s.run ops m1).2.2.sched = (s.run ops m2).2.2.sched := by
+  induction ops with
+  | nil => intro s m1 m2 _ _ _ h; exact ⟨rfl, rfl, h⟩
+  | cons op ops ih =>
+    intro s m1 m2 hinv hl1 hl2 h
+    obtain ⟨e1, e2, e3⟩ := step_indep s op m1 m2 hinv h
+    have e2' := ext_v e2
+    have i1 := step_inv s op m1 hinv hl1
+    have i2 := step_inv s op m2 hinv hl2
+    simp only [Stack.run]
+    rw [e1]
+    have := ih (s.step op m1).2.1 (s.step op m1).2.2 (s.step op m2).2.2 i1.1 (by omega) (by omega) e3
+    rw [e2'] at this ⊢
+    exact ⟨by rw [this.1], this.2.1, this.2.2⟩
+
+theorem opt_eq_of_map_v {o1 o2 : Option Stack} (h : o1.map (·.v) = o2.map (·.v)) : o1 = o2 := by
+  cases o1 <;> cases o2 <;> simp at h ⊢
+  exact ext_v h
+
+/-- `cc_stack_filter` depends on the ledger only through its schedule -/
+theorem filter_indep (p : Nat → Bool) (s : Stack) (dgrow : Nat → Nat) (dexGe : Nat → Bool) (m1 m2 : Mem)
+    (h : m1.sched = m2.sched) :
+    (s.filter p dgrow dexGe m1).1 = (s.filter p dgrow dexGe m2).1 ∧
+    (s.filter p dgrow dexGe m1).2.1 = (s.filter p dgrow dexGe m2).2.1 ∧
+    (s.filter p dgrow dexGe m1).2.2.1 = (s.filter p dgrow dexGe m2).2.2.1 ∧
+    (s.filter p dgrow dexGe m1).2.2.2.sched = (s.filter p dgrow dexGe m2).2.2.2.sched := by
+  obtain ⟨e1, e2, e3⟩ := new_indep Gen.ARRAY_DEFAULT_CAPACITY dgrow dexGe m1 m2 h
+  have e2' := opt_eq_of_map_v e2
+  unfold filter
+  by_cases h0 : s.size = 0
+  · simp only [h0, if_true]; exact ⟨by triv, by triv, by triv, h⟩
+  · simp only [h0, if_false, e1, e2']
+    cases hn : (Stack.new Gen.ARRAY_DEFAULT_CAPACITY dgrow dexGe m2).2.1 with
+    | none => exact ⟨rfl, rfl, rfl, e3⟩
+    | some f =>
+      simp only
+      split
+      · exact ⟨rfl, rfl, rfl, e3⟩
+      · obtain ⟨l1, l2, l3, l4⟩ := filterLoop_indep p s.v (s.v.size + 1) {} f [] _ _ e3
+        have l2' := ext_v l2
+        simp only [l1, l2', l3]
+        split
+        · exact ⟨rfl, rfl, rfl, by rw [destroy_sched, destroy_sched]; exact l4⟩
+        · exact ⟨rfl, rfl, rfl, l4⟩
+
 end CC.Stack
